@@ -271,6 +271,7 @@ fn collect2(order_sorted: bool) {
 ///   disjoint, non-adjacent) that denotes exactly the union of the blocks
 #[kani::proof]
 #[kani::unwind(4)]
+#[kani::stub(std::vec::Vec::push, push_stub)]
 fn collect_two_sorted() { collect2(true); }
 
 /// @tier exp
@@ -383,6 +384,7 @@ fn binop_body<const N: usize, const M: usize>() -> (bool, bool) {
 ///   trim reports "unchanged" only when the intersection equals self
 #[kani::proof]
 #[kani::unwind(6)]
+#[kani::stub(std::vec::Vec::push, push_stub)]
 fn chain_ops_1x1() {
     let (ina, inb) = binop_body::<1, 1>();
     kani::cover!(ina && inb);
@@ -760,3 +762,282 @@ fn as_range_der_ordered() {
 // BIT STRING } -- cannot be compiled by Kani 0.68: internal compiler error
 // `TryFromIntError(PosOverflow)` in codegen of the IP address decoder, the
 // same ICE that blocks every certificate-carrying decoder.)
+
+//------------ L2: the unsorted collection path from the hand-over state -----------------
+
+use rpki::repository::resources::verif::verif_from_iter_unsorted;
+
+/// `OwnedChain::from_iter` collects blocks on a fast path while they arrive
+/// in ascending order and hands over to `from_iter_unsorted(res, block, rest)`
+/// at the first out-of-order block.  This harness enters there: `res` = two
+/// blocks as the fast path leaves them (ascending, disjoint, non-adjacent),
+/// `block` = an arbitrary block that starts before the last one, no further
+/// blocks.  That is exactly "collect [a, b, c] with c out of order".
+fn unsorted_handover_body() -> usize {
+    let a = any_b8();
+    let b = any_b8();
+    let c = any_b8();
+    kani::assume(canonical(&[a, b]));
+    kani::assume(c.lo < b.lo);
+    let x: u8 = kani::any();
+    let mut res: Vec<B8> = Vec::with_capacity(4);
+    res.push(a);
+    res.push(b);
+    let chain = verif_from_iter_unsorted(res, c);
+    let s = chain.as_slice();
+    let n = s.len();
+    assert!(canonical(s));
+    assert_eq!(member(s, x), in_b8(&a, x) || in_b8(&b, x) || in_b8(&c, x));
+    std::mem::forget(chain);
+    n
+}
+
+/// @tier exp
+/// @fn rpki::repository::resources::chain::from_iter_unsorted
+///   rpki::repository::resources::chain::merge_or_add_block
+///   rpki::repository::resources::chain::Block::sum
+/// @bounds OwnedChain<B8> (Item = u8): two arbitrary blocks in canonical
+///   order already collected, one arbitrary out-of-order third block (it may
+///   overlap, touch or bridge the first two, or stand alone); one witness
+///   item; unwind 6
+/// @says collecting blocks in any order yields a chain in canonical form
+///   (ascending, pairwise disjoint and non-adjacent) that denotes exactly
+///   the union of the blocks -- in particular when a later block bridges two
+///   earlier ones (10-20, 30-40, then 15-35)
+/// @assume the first two blocks are in the state the sorted fast path of
+///   from_iter leaves them (ascending, disjoint, non-adjacent)
+/// @out more than three blocks; the sorted fast path itself
+#[kani::proof]
+#[kani::unwind(6)]
+fn collect_third_block_out_of_order() {
+    let n = unsorted_handover_body();
+    kani::cover!(n == 1);
+    kani::cover!(n == 3);
+}
+
+/// Stub for the unsorted path when the input is sorted by assumption: taking
+/// it would be a defect, so it fails the harness instead of being modelled.
+/// (Without this stub every call of `from_iter` drags std's sort networks
+/// into the query -- symbolic execution explores the branch whether or not
+/// the assumption excludes it -- and no collect harness finishes.)
+fn unsorted_unreachable<T: Block, I: Iterator<Item = T>>(
+    _res: Vec<T>, _block: T, _iter: I,
+) -> OwnedChain<T> {
+    panic!("unsorted path taken for input sorted by lower bound")
+}
+
+fn sorted_collect_body<const N: usize>() -> usize {
+    let mut blocks = [B8 { lo: 0, hi: 0 }; N];
+    let mut i = 0;
+    while i < N {
+        blocks[i] = any_b8();
+        if i > 0 {
+            kani::assume(blocks[i - 1].lo <= blocks[i].lo);
+        }
+        i += 1;
+    }
+    let x: u8 = kani::any();
+    let chain: OwnedChain<B8> = blocks.into_iter().collect();
+    let s = chain.as_slice();
+    let n = s.len();
+    assert!(canonical(s));
+    let mut want = false;
+    let mut i = 0;
+    while i < N {
+        if in_b8(&blocks[i], x) { want = true; }
+        i += 1;
+    }
+    assert_eq!(member(s, x), want);
+    assert_eq!(chain.contains_item(x), want);
+    std::mem::forget(chain);
+    n
+}
+
+/// @tier quick thorough
+/// @fn rpki::repository::resources::chain::OwnedChain::from_iter
+///   rpki::repository::resources::chain::Chain::contains_item
+/// @bounds OwnedChain<B8> (Item = u8); exactly 2 arbitrary blocks in
+///   ascending order of their lower bounds (overlapping, nested, adjacent,
+///   duplicated, touching 0 or 255 all included); one witness item; unwind 5
+/// @says collecting blocks that arrive sorted yields a chain in canonical
+///   form (ascending, disjoint, non-adjacent) denoting exactly their union,
+///   also when a block ends at the top of the number space; the unsorted
+///   path is never taken for sorted input
+#[kani::proof]
+#[kani::unwind(5)]
+#[kani::stub(rpki::repository::resources::chain::from_iter_unsorted, unsorted_unreachable)]
+fn collect_sorted_2() {
+    let n = sorted_collect_body::<2>();
+    kani::cover!(n == 1);
+    kani::cover!(n == 2);
+}
+
+/// @tier quick thorough
+/// @fn rpki::repository::resources::chain::OwnedChain::from_iter
+/// @bounds OwnedChain<B8>; exactly 3 arbitrary blocks in ascending order of
+///   lower bound; unwind 6
+/// @says see collect_sorted_2
+#[kani::proof]
+#[kani::unwind(6)]
+#[kani::stub(rpki::repository::resources::chain::from_iter_unsorted, unsorted_unreachable)]
+fn collect_sorted_3() {
+    let n = sorted_collect_body::<3>();
+    kani::cover!(n == 1);
+    kani::cover!(n == 3);
+}
+
+/// @tier thorough
+/// @fn rpki::repository::resources::chain::OwnedChain::from_iter
+/// @bounds OwnedChain<B8>; exactly 4 arbitrary blocks in ascending order of
+///   lower bound; unwind 7
+/// @says see collect_sorted_2
+/// @out more than 4 blocks
+#[kani::proof]
+#[kani::unwind(7)]
+#[kani::stub(rpki::repository::resources::chain::from_iter_unsorted, unsorted_unreachable)]
+fn collect_sorted_4_t() {
+    let n = sorted_collect_body::<4>();
+    kani::cover!(n == 1);
+    kani::cover!(n == 4);
+}
+
+use rpki::repository::resources::verif::verif_merge_or_add_block;
+
+/// Pairwise non-touching: no two blocks overlap or are adjacent (order
+/// irrelevant) -- the invariant of the working vector of the unsorted
+/// collection, which only gets sorted (and adjacent blocks merged) at the
+/// end.
+fn non_touching(c: &[B8]) -> bool {
+    let mut i = 0;
+    while i < c.len() {
+        if c[i].lo > c[i].hi { return false; }
+        let mut j = i + 1;
+        while j < c.len() {
+            let (a, b) = (c[i], c[j]);
+            let apart = (a.hi < b.lo && a.hi + 1 < b.lo)
+                || (b.hi < a.lo && b.hi + 1 < a.lo);
+            if !apart { return false; }
+            j += 1;
+        }
+        i += 1;
+    }
+    true
+}
+
+/// @tier quick thorough
+/// @fn rpki::repository::resources::chain::merge_or_add_block
+///   rpki::repository::resources::chain::Block::sum
+/// @bounds OwnedChain<B8> working vector of exactly 2 arbitrary pairwise
+///   non-touching blocks in either order, one arbitrary further block (it
+///   may overlap, touch or bridge the two, e.g. 10-20, 30-40, then 15-35);
+///   one witness item; unwind 6
+/// @says one step of collecting blocks in arbitrary order: adding a block to
+///   pairwise non-touching blocks yields pairwise non-touching blocks that
+///   denote exactly the union.  (Induction over the input gives a vector
+///   that only needs sorting to be canonical; the final std sort and the
+///   adjacent-merge pass after it are not part of this query.)
+/// @out the final sort; vectors of more than 2 blocks before the step
+#[kani::proof]
+#[kani::unwind(6)]
+fn collect_unsorted_step_keeps_blocks_apart() {
+    let a = any_b8();
+    let b = any_b8();
+    let c = any_b8();
+    kani::assume(non_touching(&[a, b]));
+    let x: u8 = kani::any();
+    let mut res: Vec<B8> = Vec::with_capacity(4);
+    res.push(a);
+    res.push(b);
+    verif_merge_or_add_block(&mut res, c);
+    kani::cover!(res.len() == 1);
+    kani::cover!(res.len() == 3);
+    assert!(member(&res, x) == (in_b8(&a, x) || in_b8(&b, x) || in_b8(&c, x)));
+    assert!(non_touching(&res));
+    std::mem::forget(res);
+}
+
+fn issued_refuse_body<const N: usize, const M: usize>() -> (bool, bool) {
+    let (issuer, ia) = any_as_blocks::<N>();
+    let (claim, ca) = any_as_blocks::<M>();
+    let x: u32 = kani::any();
+    let in_i = as_member(&ia, x);
+    let in_c = as_member(&ca, x);
+    // reference subset test on the bounds
+    let mut subset = true;
+    let mut i = 0;
+    while i < M {
+        let mut inside = false;
+        let mut j = 0;
+        while j < N {
+            if ia[j].0 <= ca[i].0 && ca[i].1 <= ia[j].1 { inside = true; }
+            j += 1;
+        }
+        if !inside { subset = false; }
+        i += 1;
+    }
+    let res = AsResources::blocks(claim.clone());
+    match issuer.verify_issued(&res, Overclaim::Refuse) {
+        Ok(t) => {
+            assert!(subset);
+            assert!(!in_c || in_i);
+            assert_eq!(t.contains_asn(asn(x)), in_c);
+            std::mem::forget(t);
+        }
+        Err(e) => {
+            assert!(!subset);
+            std::mem::forget(e);
+        }
+    }
+    assert_eq!(issuer.contains(&claim), subset);
+    assert_eq!(claim.verify_covered(&AsResources::blocks(issuer.clone()))
+                   .is_ok(), subset);
+    match issuer.verify_issued(&AsResources::inherit(), Overclaim::Refuse) {
+        Ok(t) => {
+            assert_eq!(t.contains_asn(asn(x)), in_i);
+            std::mem::forget(t);
+        }
+        Err(_) => panic!("inherit never fails"),
+    }
+    match issuer.verify_issued(&AsResources::missing(), Overclaim::Refuse) {
+        Ok(t) => assert!(t.is_empty()),
+        Err(_) => panic!("missing never fails"),
+    }
+    assert_eq!(issuer.contains_asn(asn(x)), in_i);
+    std::mem::forget((issuer, claim, res));
+    (subset, in_c && !in_i)
+}
+
+/// @tier quick thorough
+/// @fn rpki::repository::resources::asres::AsBlocks::verify_issued
+///   rpki::repository::resources::asres::AsBlocks::verify_covered
+///   rpki::repository::resources::asres::AsBlocks::contains
+///   rpki::repository::resources::asres::AsBlocks::contains_asn
+/// @bounds full-width AS numbers; issuer and claim = arbitrary canonical
+///   sets of exactly 2 blocks each; one witness ASN; unwind 6
+/// @says under the no-overclaim policy the issuance check succeeds exactly
+///   when the claimed set is a subset of the issuer's set and then yields
+///   exactly the claimed blocks (nothing outside the issuer is ever
+///   granted); 'inherit' yields the issuer's own set, 'missing' the empty
+///   set; contains / verify_covered are the subset test
+/// @out the trimming policy (Chain::trim: out of memory, see DESIGN); IP
+///   resources (same generic code, different block type)
+#[kani::proof]
+#[kani::unwind(6)]
+fn as_verify_issued_refuse_2x2() {
+    let (subset, outside) = issued_refuse_body::<2, 2>();
+    kani::cover!(subset);
+    kani::cover!(!subset && outside);
+}
+
+/// @tier quick thorough
+/// @fn rpki::repository::resources::asres::AsBlocks::verify_issued
+/// @bounds issuer exactly 1 block, claim exactly 2 blocks, and the reverse
+/// @says see as_verify_issued_refuse_2x2
+#[kani::proof]
+#[kani::unwind(6)]
+fn as_verify_issued_refuse_mixed() {
+    let (s12, _) = issued_refuse_body::<1, 2>();
+    let (s21, _) = issued_refuse_body::<2, 1>();
+    kani::cover!(s12);
+    kani::cover!(s21);
+}
